@@ -27,7 +27,7 @@ WARNING = "Warning: A successor has modified the shared dicts"
 
 SHARE = ["filter", "sort", "unique", "head", "tail", "slice", "copy", "reverse", "sample", "semi_join", "anti_join",
          "append", "extend", "insert", "add", "mul", "drop_na", "clear"]
-EDIT = ["modify", "modify_if", "rename", "select", "unselect", "fill", "fill_all", "inner_join", "left_join"]
+EDIT = ["modify", "modify_if", "modify_nested", "rename", "select", "unselect", "fill", "fill_all", "inner_join", "left_join"]
 USE = ["pluck", "keys", "to_json"]
 
 
@@ -39,6 +39,8 @@ def _plan(draw, max_steps):
         it = {"_id": i, "k": draw(st.sampled_from([None, 0, 1]))}
         if draw(st.booleans()):
             it["p"] = draw(st.sampled_from([None, 1, "v"]))
+        if draw(st.integers(0, 2)) == 0:
+            it["geo"] = draw(st.sampled_from([{"x": 1}, {"x": 2, "tags": ["a"]}, {"inner": {"y": 0}}]))
         items.append(it)
     items2 = []
     for i in range(draw(st.integers(0, 4))):
@@ -117,8 +119,17 @@ def nontrivial(plan):
     return hit
 
 
+def _plain(x):
+    if isinstance(x, dict):
+        return {k: _plain(v) for k, v in x.items()}
+    if isinstance(x, (list, tuple)):
+        return [_plain(v) for v in x]
+    return x
+
+
 def _snap(lst):
-    return [dict(x) for x in list.__iter__(lst)]
+    """Deep, plain snapshot of the items (nested dicts / lists are part of an item's contents)."""
+    return [_plain(x) for x in list.__iter__(lst)]
 
 
 def _has_k(lst):
@@ -173,9 +184,18 @@ def check(plan, ctx):
             next_origin[0] += 1
         elif op in EDIT:
             if op in ("rename", "select"):
-                origins = {next_origin[0]}
+                # new top-level dicts, but nested values are still the same objects
+                origins = set(node.origins) | {next_origin[0]}
                 next_origin[0] += 1
             else:
+                origins = set(node.origins)
+            if op in ("inner_join", "left_join"):
+                # the right-hand items' values (incl. nested objects) were copied by reference into the
+                # receiver's dicts: every list holding those dicts may now share nested objects with `other`
+                shared = set(other.origins)
+                for m in pool:
+                    if m.origins & node.origins:
+                        m.origins |= shared
                 origins = set(node.origins)
             new = Node(res, node, origins, node.depth + 1)
             p = node
@@ -235,9 +255,18 @@ def _apply(op, x, y, a, fresh_item):
     if op == "clear": return x.clear()
     if op == "deepcopy": return x.deepcopy()
     if op == "modify": return x.modify(v=lambda it: a)
+    if op == "modify_nested":
+        def touch(it):
+            g = it.get("geo")
+            if isinstance(g, dict):
+                g["x"] = 100 + a              # edits the nested dict in place
+                if isinstance(g.get("tags"), list):
+                    g["tags"].append(a)
+            return a
+        return x.modify(w=touch)
     if op == "modify_if": return x.modify_if(lambda it: it["k"] == a % 2, k=lambda it: 5 + a)
     if op == "rename": return x.rename(z="p") if a % 2 else x.rename(p="z")
-    if op == "select": return x.select("_id", "k", "p")
+    if op == "select": return x.select("_id", "k", "p", "geo")
     if op == "unselect": return x.unselect("p", "v")
     if op == "fill": return x.fill_missing_keys(p=a)
     if op == "fill_all": return x.fill_missing_keys()
